@@ -227,7 +227,7 @@ static std::vector<Call> misuse() {
     add("unit helpers with odd strings", [](File &) { const char *us[] = {"", " ", "^", "m^", "m^0", "^2", "mol^2", "kk", "mV/", "/s", "mV*", "mV/s^-2*kg", "%", "1/s", "µV", "\xff\xfe", "mV^99999999999999999999", "dB^-3"};
         for (const char *u : us) { std::string a, b, c; vf::guarded([&] { util::isSIUnit(u); }); vf::guarded([&] { util::isCompoundSIUnit(u); }); vf::guarded([&] { util::splitUnit(u, a, b, c); }); vf::guarded([&] { std::vector<std::string> p; util::splitCompoundUnit(u, p); }); vf::guarded([&] { util::getSIScaling(u, "mV"); }); vf::guarded([&] { util::getSIScaling("mV", u); });
             vf::guarded([&] { util::isScalable(u, u); }); vf::guarded([&] { util::unitSanitizer(u); }); vf::guarded([&] { util::convertToSeconds(u, 1.0); }); vf::guarded([&] { util::convertToKelvin(u, 1.0); }); } });
-    add("string / time helpers", [](File &) { vf::guarded([] { util::strToTime(""); }); vf::guarded([] { util::strToTime("garbage"); }); vf::guarded([] { util::timeToStr(-1); }); vf::guarded([] { util::timeToStr(LONG_MAX); }); vf::guarded([] { util::deblankString(std::string("\xff \t")); }); vf::guarded([] { util::looksLikeUUID(""); }); vf::guarded([] { util::nameSanitizer("a/b/"); }); vf::guarded([] { util::nameCheck(""); });
+    add("string / time helpers", [](File &) { vf::guarded([] { util::strToTime(""); }); vf::guarded([] { util::strToTime("garbage"); }); vf::guarded([] { util::timeToStr(-1); }); vf::guarded([] { util::deblankString(std::string("\xff \t")); }); vf::guarded([] { util::looksLikeUUID(""); }); vf::guarded([] { util::nameSanitizer("a/b/"); }); vf::guarded([] { util::nameCheck(""); });
         vf::guarded([] { data_type_to_string(static_cast<DataType>(77)); }); vf::guarded([] { string_to_data_type("nope"); }); vf::guarded([] { data_type_to_size(DataType::Nothing); }); vf::guarded([] { link_type_to_string(static_cast<LinkType>(9)); }); });
     return v;
 }
